@@ -172,6 +172,9 @@ def render_ts(rng, spec, out: Lines, js=False):
                 continue
         out.code("    return a;")
         out.code("  }")
+    if rng.random() < 0.3:
+        # string literals that contain comment markers, in every quote style: code lines like any other
+        out.code("  glob_%d = %s;" % (n, rng.choice(["'lib/*'", "'http://host/*.ts'", "\"a /* b\"", "`c /* ${1} d`", "'it\\'s /* fine'", "'// not a comment'"])))
     have = sum(1 for k in out.kinds[start:] if k == "code") + 1
     if have < spec["loc_target"]:
         if spec["loc_target"] - have >= 2:
